@@ -1,11 +1,17 @@
 #!/bin/bash
-# tools/seed_matrix.sh [<Cxx> ...] : runs the quick check of every seeded change's own property (and of the
-# properties given as arguments) against the patched tree; writes seeded/MATRIX.tsv (seed, check, outcome, signature).
+# tools/seed_matrix.sh : regression run of the monitors against every seeded change. For each seed the quick
+# checks that its meta.json records as having detected it are run again against the patched tree
+# (selftest.sh); writes seeded/MATRIX.tsv (seed, check, outcome, signature) and lists every check that
+# no longer detects its seed.
 cd "$(dirname "$0")/.."
 out=seeded/MATRIX.tsv; : > "$out.tmp"
 for d in seeded/*/; do
-  id=$(basename "$d"); own=${id%%-*}
-  for p in $own "$@"; do
+  id=$(basename "$d")
+  checks=$(python3 -c "
+import json,sys
+m=json.load(open('$d/meta.json'))
+print(' '.join(k for k,v in m['checks'].items() if v['outcome']=='detected'))")
+  for p in $checks; do
     r=$(./selftest.sh "$d/patch.diff" $p 2>&1 | tail -1)
     st=$(echo "$r" | awk '{print $1}')
     sig=$(echo "$r" | sed 's/^[A-Z-]* [A-Z0-9]* [^:]*: *//' | cut -c1-140)
@@ -13,3 +19,4 @@ for d in seeded/*/; do
   done
 done
 mv "$out.tmp" "$out"
+echo "no longer detected:"; grep -v -P "\tDETECTED\t" "$out" || echo "  (none)"
